@@ -24,8 +24,8 @@ import (
 
 type fieldKind struct {
 	name     string
-	required gen.S            // required fields with example values
-	optional gen.S            // optional field -> example value (normal form: non-default values)
+	required gen.S                 // required fields with example values
+	optional gen.S                 // optional field -> example value (normal form: non-default values)
 	place    func(obj gen.S) gen.S // builds a document holding obj at a representative position
 }
 
@@ -457,6 +457,17 @@ func runC03(c *core.Ctx) {
 		doc["components"] = gen.S{"schemas": gen.S{"WithExample": gen.S{"type": "object", "properties": gen.S{"a": gen.S{"type": "string", "default": "d"}}, "example": gen.S{}, "default": gen.S{}}},
 			"requestBodies": gen.S{"B": gen.S{"content": gen.S{"application/json": mts}}}, "examples": gen.S{"E": gen.S{"value": ex}}}
 		run("v3", "examples-omitting-defaulted-properties", "(directed)", doc, false)
+	}
+	// free-form example values whose members are named like the library's own bookkeeping: they are the user's data
+	for _, member := range []string{"__origin__", "origin", "extensions", "x-inner"} {
+		payload := gen.S{"id": 1.0, member: gen.S{"key": "k", "line": 3.0}, "deep": gen.S{"list": gen.Arr(gen.S{member: "text"}, gen.S{"ok": true})}}
+		str := gen.S{"type": "object"}
+		doc := baseDoc(gen.S{"/e": gen.S{"post": gen.S{
+			"parameters":  gen.Arr(gen.S{"name": "f", "in": "query", "style": "deepObject", "explode": true, "schema": str, "example": payload}),
+			"requestBody": gen.S{"content": gen.S{"application/json": gen.S{"schema": str, "example": payload}}},
+			"responses":   gen.S{"200": gen.S{"description": "d", "content": gen.S{"application/json": gen.S{"schema": str, "example": payload}}, "headers": gen.S{"H": gen.S{"schema": str, "example": payload}}}},
+		}}})
+		run("v3", "example-members-named-like-bookkeeping", member, doc, true)
 	}
 	for _, f := range repoTestdataDocs() {
 		if c.Mine(idx) {
